@@ -4,6 +4,7 @@ from __future__ import annotations
 import json
 import random
 import warnings
+import zlib
 from io import BytesIO, StringIO
 from pathlib import Path
 
@@ -31,7 +32,10 @@ RULE = (
     "in-domain data of the same definition, had its earlier life with them, and was then given the observed data by "
     "r.data[i] = v, r.data[:] = values or r.data = values), or ONE object writes several records of the stream "
     "(items' `reuse`: the object that wrote the latest record of the same definition is given this item's data in "
-    "one of those three ways and writes again); every record is judged by the data the object holds when it is written."
+    "one of those three ways and writes again); every record is judged by the data the object holds when it is written. "
+    "In about two fifths of the delimited-text cases the delimiter is WHITE SPACE (a blank, a TAB, or two of them) "
+    "instead of punctuation, so that missing values and empty literals stand as empty tokens between two delimiters "
+    "in a row; the domain (data that do not contain the delimiter) and the expectation stay the model's."
 )
 ASSUMPTIONS = c01.ASSUMPTIONS + ["binary layouts are contiguous after the identifier (the property's domain)", "identifiers are ASCII literal text without surrounding blanks"]
 TRUSTED = []
@@ -235,6 +239,12 @@ def nontrivial(case):
 
 def features(case, obs):
     f = [f"storage={case['storage'] or 'default'}:{'delimited' if case['defs'][0].get('delimiter') else 'positional'}", f"stream_len={len(case['items'])}"]
+    if case["defs"][0].get("delimiter") and case["storage"] != "BINARY":
+        try:
+            dl = codec.dec_data(case["defs"][0]["delimiter"])
+            f.append("delimiter=" + ("white_space" if isinstance(dl, str) and dl.strip() == "" else "punctuation"))
+        except Exception:
+            pass
     if any(d["digits"] == 0 for d in case["defs"]):
         f.append("zero_width_identifier")
     if any(d["digits"] > len(d["ident"]) for d in case["defs"]):
@@ -380,6 +390,13 @@ def random_case(rng):
                 it["was"] = {"data": gen_data(rng, defs, it["def"], mode), "how": rng.choice(["item", "item", "slice", "setter"])}
                 if not any(o["op"] == "w" for o in it.get("pre") or []):
                     it["pre"] = (it.get("pre") or []) + [{"op": "w", "storage": rng.choice([case["storage"], case["storage"], "", "BINARY"])}]
+    if mode == "delim":
+        # the delimiter alphabet: white space as well as punctuation (own random stream, derived from the case)
+        r2 = random.Random(zlib.crc32(json.dumps(case, sort_keys=True).encode()))
+        if r2.random() < 0.4:
+            d = codec.enc_data(r2.choice([" ", " ", "\t", "\t", "  ", " \t", "\t\t"]))
+            for x in defs:
+                x["delimiter"] = d
     if random.Random(len(items) * 7919 + ndefs).random() < 0.3:
         case["wrappers"] = True  # every other record goes through write_register / read_register
     return case
